@@ -92,6 +92,11 @@ def run_check(prop, tier, replay=None):
                 m = {"kind": "harness-error", "detail": "%s: %s" % (type(exc).__name__, exc)}
             if replay:
                 print("replay: case=%s\n  expected=%s\n  got=%s\n  verdict=%s" % (json.dumps(case), e, g, m))
+            if m is not None and hasattr(mod, "refine") and m.get("needs_objective_check"):
+                try:
+                    m = mod.refine(case, g, e, m, oracle)
+                except Exception as exc:
+                    m = {"kind": "harness-error", "detail": "refine: %s: %s" % (type(exc).__name__, exc)}
             if m is None:
                 if len(samples) < 3 and rng.random() < 0.01:
                     samples.append({"case": case, "result": lib.fmt_float(g.get("ok")) if isinstance(g, dict) else g})
